@@ -2,6 +2,9 @@ package main
 
 import (
 	"errors"
+	"os"
+	"runtime/debug"
+	"sync"
 	"sync/atomic"
 
 	dbm "github.com/cosmos/cosmos-db"
@@ -22,6 +25,9 @@ type SimDB struct {
 	Iters     atomic.Int64
 	failAfter atomic.Int64 // <0: disabled; otherwise remaining ops before failing
 	Failed    atomic.Int64 // number of operations that were failed by injection
+	mu        sync.Mutex
+	open      map[int64]*simIter
+	nextIter  int64
 }
 
 var errSimDisk = errors.New("simdb: injected disk read error")
@@ -75,14 +81,71 @@ func (d *SimDB) Iterator(s, e []byte) (dbm.Iterator, error) {
 	if err := d.tick(); err != nil {
 		return nil, err
 	}
-	return d.inner.Iterator(s, e)
+	it, err := d.inner.Iterator(s, e)
+	return d.track(it), err
 }
 func (d *SimDB) ReverseIterator(s, e []byte) (dbm.Iterator, error) {
 	d.Iters.Add(1)
 	if err := d.tick(); err != nil {
 		return nil, err
 	}
-	return d.inner.ReverseIterator(s, e)
+	it, err := d.inner.ReverseIterator(s, e)
+	return d.track(it), err
+}
+
+// simIter tracks open iterators: MemDB iterators hold a read lock until closed.
+// When a node "process" dies (panic inside FinalizeBlock), the operating system
+// would release everything it held; ReleaseAll does that for the simulated disk.
+type simIter struct {
+	dbm.Iterator
+	d      *SimDB
+	id     int64
+	closed bool
+	stack  string
+}
+
+func (d *SimDB) track(it dbm.Iterator) dbm.Iterator {
+	if it == nil {
+		return nil
+	}
+	d.mu.Lock()
+	defer d.mu.Unlock()
+	d.nextIter++
+	si := &simIter{Iterator: it, d: d, id: d.nextIter}
+	if debugIters {
+		si.stack = string(debug.Stack())
+	}
+	if d.open == nil {
+		d.open = map[int64]*simIter{}
+	}
+	d.open[si.id] = si
+	return si
+}
+
+func (it *simIter) Close() error {
+	it.d.mu.Lock()
+	if it.closed {
+		it.d.mu.Unlock()
+		return nil
+	}
+	it.closed = true
+	delete(it.d.open, it.id)
+	it.d.mu.Unlock()
+	return it.Iterator.Close()
+}
+
+// ReleaseAll closes every iterator the dead process left open. Returns how many.
+func (d *SimDB) ReleaseAll() int {
+	d.mu.Lock()
+	var its []*simIter
+	for _, it := range d.open {
+		its = append(its, it)
+	}
+	d.mu.Unlock()
+	for _, it := range its {
+		_ = it.Close()
+	}
+	return len(its)
 }
 
 // Close is a no-op: the disk outlives the process.
@@ -104,4 +167,17 @@ func (b *simBatch) WriteSync() error      { return b.b.WriteSync() }
 func (b *simBatch) Close() error          { return b.b.Close() }
 func (b *simBatch) GetByteSize() (int, error) {
 	return b.b.GetByteSize()
+}
+
+var debugIters = os.Getenv("ELYSSIM_DEBUG_ITERS") != ""
+
+// OpenIterators returns the number of iterators currently open (and the creation
+// stack of one of them when ELYSSIM_DEBUG_ITERS is set).
+func (d *SimDB) OpenIterators() (int, string) {
+	d.mu.Lock()
+	defer d.mu.Unlock()
+	for _, it := range d.open {
+		return len(d.open), it.stack
+	}
+	return 0, ""
 }
